@@ -300,7 +300,7 @@ CONTRACTS = {
         'prologue': 'g_obj = obj; g_hasA = HASDTOR(ca); g_hasB = HASDTOR(cb); g_nsA = g_hasA ? NSTM(ca) : 0; g_nsB = g_hasB ? NSTM(cb) : 0; g_depth0 = g_depth; g_ctx0 = ev_m_currentClassCtx; g_st0 = ev_m_inStaticContext; g_ct0 = ev_m_inConstructor; g_dt0 = ev_m_inDestructor;',
         'loops': {
             0: {'assigns': 'cur, ' + GH_ALL + ', g_pos, g_ns',
-                'body_begin': 'g_pos = g_pos + 1;',
+                'body_begin': 'g_pos = g_pos + 1;', 'ghost_in_bounded': True,
                 'invariants': [
                     ('dtor_walk.outer.on_the_chain', 'g_pos <= g_len && cur >= 0 && cur < CMAX && cur == (g_pos < g_len ? g_chain[g_pos] : 0)'),
                     ('dtor_walk.outer.context', INV_CTX),
@@ -314,7 +314,7 @@ CONTRACTS = {
                 ],
                 'decreases': 'cur'},
             1: {'assigns': 'bl_i1, ev_m_hasReturn, g_a_started, g_b_started, g_b_started_when_a, g_a_this_ok, g_b_this_ok, g_a_depth, g_b_depth',
-                'before': 'g_ns = BODY_NSTMTS(DECL_BODY(g_cls[cur].destructorDecl));',
+                'before': 'g_ns = BODY_NSTMTS(DECL_BODY(g_cls[cur].destructorDecl));', 'ghost_in_bounded': True,
                 'invariants': [
                     ('dtor_walk.inner.bounds', 'bl_i1 <= g_ns'),
                     ('dtor_walk.inner.a', '(cur == ca) ? ((bl_i1 > 0) ==> g_a_started) : ((g_a_started != 0) == (k1 < g_pos - 1 && g_hasA && g_nsA > 0))'),
